@@ -452,3 +452,82 @@ mod errors {
         assert!(got == 6);
     }
 }
+
+// ---------- C06: host functions without continuation arguments, as WHOLE functions (rule R9) ----------
+#[cfg(kani)]
+mod pure_hosts {
+    use super::*;
+    use zydeco_dynamics::host::{HostValue, ReaderHandle, WriterHandle};
+    macro_rules! call {
+        ($f:ident, $args:expr) => {{
+            let mut input = std::io::empty();
+            let mut output = std::io::sink();
+            let mut host = HostRuntime;
+            $f($args, &mut input, &mut output, &[], &mut host)
+        }};
+    }
+    fn returned(r: &Result<Computation, i32>) -> Option<&SemValue> {
+        match r { Ok(Computation::Ret(Return(v))) => match v.as_ref() { Value::SemValue(s) => Some(s), _ => None }, _ => None }
+    }
+    fn returned_i64(r: &Result<Computation, i32>) -> Option<i64> {
+        match returned(r) { Some(SemValue::Literal(Literal::Integer(IntegerLiteral::Int64(v)))) => Some(*v), _ => None }
+    }
+    /// char_codepoint on EVERY Unicode scalar value: consumes one Char, returns its code point as Int64 (complete)
+    #[kani::proof]
+    fn char_codepoint_whole() {
+        let cp: u32 = kani::any();
+        let Some(c) = char::from_u32(cp) else { return };
+        let args = [SemValue::Literal(Literal::Char(c))];
+        let r = call!(char_codepoint, &args);
+        let got = returned_i64(&r);
+        core::mem::forget(r); core::mem::forget(args);
+        assert!(got == Some(cp as i64));
+    }
+    /// exit on EVERY Int64: ends the run with the low 32 bits as the process status (complete)
+    #[kani::proof]
+    fn exit_whole() {
+        let code: i64 = kani::any();
+        let args = [SemValue::Literal(Literal::Integer(IntegerLiteral::Int64(code)))];
+        let r = call!(exit, &args);
+        let got = match &r { Err(c) => Some(*c), Ok(_) => None };
+        core::mem::forget(r); core::mem::forget(args);
+        assert!(got == Some(code as i32));
+    }
+    /// str_scalar_length / str_byte_length, BOUNDED (fixed strings): lengths in Unicode scalar values vs bytes
+    #[kani::proof]
+    #[kani::unwind(13)]
+    fn str_lengths_whole() {
+        let args = [SemValue::Literal(Literal::String(Utf8String::from("a\u{e9}\u{20ac}\u{1f600}")))];
+        let r1 = call!(str_scalar_length, &args);
+        let r2 = call!(str_byte_length, &args);
+        let (g1, g2) = (returned_i64(&r1), returned_i64(&r2));
+        core::mem::forget(r1); core::mem::forget(r2); core::mem::forget(args);
+        assert!(g1 == Some(4) && g2 == Some(10));
+    }
+    /// char_to_str, BOUNDED (one character of each UTF-8 width, symbolic choice): a one-scalar string of that character
+    #[kani::proof]
+    #[kani::unwind(8)]
+    fn char_to_str_whole() {
+        let k: usize = kani::any();
+        kani::assume(k < 4);
+        let c = ['a', '\u{e9}', '\u{20ac}', '\u{1f600}'][k];
+        let args = [SemValue::Literal(Literal::Char(c))];
+        let r = call!(char_to_str, &args);
+        let ok = match returned(&r) { Some(SemValue::Literal(Literal::String(s))) => s.byte_len() == c.len_utf8(), _ => false };
+        core::mem::forget(r); core::mem::forget(args);
+        assert!(ok);
+    }
+    /// stdin / stdout / stderr: nullary, return the injected standard capabilities (and not each other's)
+    #[kani::proof]
+    fn standard_streams_whole() {
+        let none: [SemValue; 0] = [];
+        let r0 = call!(stdin, &none);
+        let r1 = call!(stdout, &none);
+        let r2 = call!(stderr, &none);
+        let ok0 = matches!(returned(&r0), Some(SemValue::Host(HostValue::Reader(h))) if *h == ReaderHandle::STDIN);
+        let ok1 = matches!(returned(&r1), Some(SemValue::Host(HostValue::Writer(h))) if *h == WriterHandle::STDOUT);
+        let ok2 = matches!(returned(&r2), Some(SemValue::Host(HostValue::Writer(h))) if *h == WriterHandle::STDERR);
+        core::mem::forget(r0); core::mem::forget(r1); core::mem::forget(r2);
+        assert!(ok0 && ok1 && ok2);
+    }
+}
